@@ -15,12 +15,20 @@ NOT_CLIENTS = {"cbor_decref", "cbor_intermediate_decref", "cbor_incref", "cbor_m
 def check_balance(chk, rule, prog, eff, cache, N, B, ctors, fnames=None, floor=None, tag=""):
     """ownership balance over every path of the given functions (shared with C04/C11)"""
     nacq = 0
+    # the release routine, and the unit-internal helpers it is split into, are not clients of the ownership rules:
+    # dropping the references a dying item holds is their job (decided by the release rules, C04.release)
+    release_helpers = O.static_callees(prog, eff, "cbor_decref") if "cbor_decref" in prog.funcs else set()
+    # unit-internal helpers are judged in the context of the functions they are inlined into (a helper may release or
+    # hand off a reference its caller acquired)
+    in_context = set()
+    for g_ in prog.lib_funcs():
+        in_context |= O.static_callees(prog, eff, g_.name)
     for f in (prog.lib_funcs() if fnames is None else [prog.fn(n) for n in fnames]):
-        if f.name in NOT_CLIENTS:
+        if f.name in NOT_CLIENTS or f.name in release_helpers or f.name in in_context:
             continue
         where = "%s:%d" % (f.file, f.line)
         worst = {}
-        for k, pa in enumerate(cache.get(f.name)):
+        for k, pa in enumerate(cache.get(f.name, inline_static=True)):
             owned = (0,) if f.name == "_cbor_builder_append" else ()
             res = B.analyse(f, pa, owned_params=owned)
             for (t_, mv, ce) in B.lost:
@@ -238,8 +246,13 @@ def check_dangling(chk, rule, prog, eff, cache, floor=4):
     Otherwise the block would be released (or resized) a second time through the stale field."""
     wrappers = {n for n in ("_cbor_realloc_multiple", "_cbor_alloc_multiple") if n in prog.funcs}
     n = 0
+    # unit-internal helpers are judged in the context of the functions they are inlined into (a helper may free or
+    # resize a block whose field its caller then updates, or whose owner its caller then frees)
+    in_context = set()
+    for g_ in prog.lib_funcs():
+        in_context |= O.static_callees(prog, eff, g_.name)
     for f in prog.lib_funcs():
-        if f.name in wrappers:
+        if f.name in wrappers or f.name in in_context:
             continue
         for k, pa in enumerate(cache.get(f.name, inline=O.static_callees(prog, eff, f.name) | wrappers)):
             evs = pa.events
